@@ -303,6 +303,32 @@ func vnHistory(t *vnToks) (res string) {
 		return served
 	}
 
+	renderCalls := func(cs []vnCall) string {
+		out := make([]string, 0, len(cs))
+		for _, c := range cs {
+			// a call made while the incident record was already closed again still belongs to the id it carries
+			if c.id != "" {
+				if _, ok := ids[c.id]; !ok {
+					ids[c.id] = len(ids) + 1
+				}
+			}
+			g, ok := nameIndex[c.group]
+			gs := strconv.Itoa(g)
+			if !ok {
+				gs = "?" + c.group
+			}
+			good := "0"
+			if c.good {
+				good = "1"
+			}
+			out = append(out, fmt.Sprintf("m%d:%s:g%s:%d:%s:%s:%s", c.module, c.cluster, gs, c.status, idOf(c.id), vnTime(c.start), good))
+		}
+		sort.Strings(out)
+		if len(out) == 0 {
+			return "-"
+		}
+		return strings.Join(out, ",")
+	}
 	noteID := func(cluster, group string) {
 		if cl, ok := nc.clusters[cluster]; ok {
 			if cg, ok := cl.Groups[group]; ok && cg.ID != "" {
@@ -476,6 +502,91 @@ func vnHistory(t *vnToks) (res string) {
 					}
 				}
 			}
+		case "o":
+			// Two responses of ONE group in flight: the first Notify call of this response is slow (the recorder blocks)
+			// and the NEXT step - a response for the same pair, same clock - is delivered through responseLoop meanwhile.
+			// The probe waits until the call log has been quiet for 10 ms (at most 300 ms), releases the module and waits
+			// for both responses.  The calls are attributed to the two steps by their status (the generators use two
+			// different statuses).  If the response makes no Notify call the next step is handled on its own as usual.
+			pi := t.int()
+			p := pairs[pi]
+			status := t.int()
+			const deadline = 2500 * time.Millisecond
+			if _, ok := nc.clusters[p.cluster]; !ok {
+				break
+			}
+			deliver := func(st int) {
+				response := &protocol.ConsumerGroupStatus{Cluster: p.cluster, Group: p.group, Status: protocol.StatusConstant(st)}
+				nc.quitChannel = make(chan struct{})
+				nc.running.Add(1)
+				go nc.responseLoop()
+				nc.evaluatorResponse <- response
+				nc.evaluatorResponse <- nil
+				close(nc.quitChannel)
+			}
+			gate.arm()
+			deliver(status)
+			done := make(chan struct{})
+			cur := nc
+			go func() { cur.running.Wait(); close(done) }()
+			entered := false
+			select {
+			case <-gate.entered:
+				entered = true
+			case <-done:
+			case <-time.After(deadline):
+				return fmt.Sprintf("STUCK step=%d the response was not handled within %v", s, deadline)
+			}
+			atomic.StoreInt32(&gate.armed, 0)
+			if !entered || s+1 >= ns {
+				if entered {
+					close(gate.release)
+					<-done
+				}
+				noteID(p.cluster, p.group)
+				break
+			}
+			// the next step must be a plain response for the same pair at the same clock
+			if k := t.next(); k != "r" {
+				panic("verif: an o step must be followed by an r step")
+			}
+			dt2, pi2, status2 := t.i64(), t.int(), t.int()
+			if dt2 != 0 || pi2 != pi {
+				panic("verif: the step after an o step must be for the same pair at the same clock")
+			}
+			deliver(status2)
+			last, quiet := -1, 0
+			for i := 0; i < 300 && quiet < 10; i++ {
+				time.Sleep(time.Millisecond)
+				gate.mu.Lock()
+				n := len(calls)
+				gate.mu.Unlock()
+				if n == last {
+					quiet++
+				} else {
+					last, quiet = n, 0
+				}
+			}
+			close(gate.release)
+			fin := make(chan struct{})
+			go func() { cur.running.Wait(); close(fin) }()
+			select {
+			case <-fin:
+			case <-time.After(deadline):
+				return fmt.Sprintf("STUCK step=%d two responses of one group in flight did not finish within %v", s, deadline)
+			}
+			noteID(p.cluster, p.group)
+			var first, second []vnCall
+			for _, c := range calls {
+				if c.status == status2 && status2 != status {
+					second = append(second, c)
+				} else {
+					first = append(first, c)
+				}
+			}
+			steps = append(steps, renderCalls(first))
+			calls = second
+			s++
 		case "s":
 			// A refresh whose storage request is not taken off App.StorageChannel within the second that
 			// helpers.TimeoutSendStorageRequest waits (real time): n = -1 - the cluster-list request of sendClusterRequest;
@@ -522,31 +633,7 @@ func vnHistory(t *vnToks) (res string) {
 			panic("verif: unknown step kind " + kind)
 		}
 
-		out := make([]string, 0, len(calls))
-		for _, c := range calls {
-			// a call made while the incident record was already closed again still belongs to the id it carries
-			if c.id != "" {
-				if _, ok := ids[c.id]; !ok {
-					ids[c.id] = len(ids) + 1
-				}
-			}
-			g, ok := nameIndex[c.group]
-			gs := strconv.Itoa(g)
-			if !ok {
-				gs = "?" + c.group
-			}
-			good := "0"
-			if c.good {
-				good = "1"
-			}
-			out = append(out, fmt.Sprintf("m%d:%s:g%s:%d:%s:%s:%s", c.module, c.cluster, gs, c.status, idOf(c.id), vnTime(c.start), good))
-		}
-		sort.Strings(out)
-		if len(out) == 0 {
-			steps = append(steps, "-")
-		} else {
-			steps = append(steps, strings.Join(out, ","))
-		}
+		steps = append(steps, renderCalls(calls))
 	}
 
 	// every cluster entry and every record that exists after the last step
@@ -599,8 +686,9 @@ func vnHistory(t *vnToks) (res string) {
 // module and group name the probe reads the constructed module's lists and AcceptConsumerGroup through the Module
 // interface, and drives the real checkAndSendResponseToModules with notifyModuleFunc replaced by a recorder (the way the
 // unit tests observe calls) to see which modules a result for that group is handed to.
-//   case:   cfg set|toml NM { class allow|-|@e deny|-|@e send_close }*NM NN { name { rx4 }*NM }*NN
-//   output: m<i>:<class built>:<name> g<j>=<a_set a_match d_set d_match>/<AcceptConsumerGroup>/<handed to notifyModule> ... ; m<i+1>...
+//
+//	case:   cfg set|toml NM { class allow|-|@e deny|-|@e send_close }*NM NN { name { rx4 }*NM }*NN
+//	output: m<i>:<class built>:<name> g<j>=<a_set a_match d_set d_match>/<AcceptConsumerGroup>/<handed to notifyModule> ... ; m<i+1>...
 func vnConfig(t *vnToks) (res string) {
 	defer func() {
 		if r := recover(); r != nil {
